@@ -15,6 +15,7 @@ LEVEL = "other"
 def run(ck, tier):
     ck.rule("R-C02-tile", "PlainEnglish::parse: every pushed token has span (cursor, cursor + next_index) and the only update of cursor on the way back to the loop head is cursor += next_index with that same next_index, so the lexer stage tiles the text exactly")
     ck.rule("R-C02-rebase", "offset provenance: where a parser hands a sub-slice of its source to an inner parser and shifts the resulting spans, the sub-slice is cut directly out of the source parameter and the shift equals the start of that very cut; line-splitting parsers advance their offset by line.len() + 1 exactly once per iteration on every path")
+    ck.rule("R-C02-twins", "quote twins are token *indices*: in Document::parse no call that can change the number or order of tokens (transitively: remove_indices / clear / push / insert / remove / retain / truncate / drain / extend on self.tokens) is reachable after match_quotes")
     ck.rule("R-C02-condense", "merging never loses characters: in the queue-based condensing passes of Document every token index pushed onto the removal queue is paired with an assignment that extends a kept token's span (before the push in the same iteration, or on every path from the push to remove_indices)")
     ck.not_decided += ["ordering/disjointness of Markdown / tree-sitter derived tokens (foreign parsers)", "lexical meaning of token text (number values, punctuation identity)", "quote twin validity", "Markdown::parse and Typst offset bookkeeping (byte/char accumulators: see C04)"]
     p = facts.load()
@@ -23,6 +24,7 @@ def run(ck, tier):
     _rebase_cut(ck, p, byk)
     _rebase_acc(ck, p, byk)
     _condense(ck, p, byk)
+    _quotes_last(ck, p, byk)
 
 
 # ---------------------------------------------------------------------------------------------------
@@ -376,3 +378,69 @@ def _condense(ck, p, byk):
                 adds += 1
         ext = any(stx["k"] == "assign" and len(stx["lhs"]) > 1 and [e[2] for e in stx["lhs"][1:] if isinstance(e, list)][-2:] == ["span", "end"] for b in f.blocks for stx in b["s"])
         ck.decide(rule, "Document::condense_indices", ext and adds >= 2, f.span, "copies span.end of the token at idx + stretch_len - 1 and resumes copying at idx + stretch_len (uses of stretch_len in index arithmetic: %d)" % adds)
+
+
+RESIZERS = {"remove_indices", "clear", "push", "insert", "remove", "retain", "retain_mut", "truncate", "drain", "pop", "append", "extend", "extend_from_slice", "split_off", "swap_remove", "dedup", "dedup_by", "dedup_by_key", "resize", "splice"}
+
+
+def _resizes_tokens(p, f, memo, depth=0):
+    """does the Document method (transitively, within harper_core::document) change the length/order of self.tokens?"""
+    if f.name in memo:
+        return memo[f.name]
+    memo[f.name] = False
+    pv = Prov(f)
+    out = False
+    for b in with_closures(p, f):
+        bpv = pv if b is f else Prov(b)
+        for bi, t in b.calls():
+            m = method(t)
+            if m in RESIZERS and t["args"]:
+                fields = arg_fields(bpv, t["args"][0])
+                if "tokens" in fields:
+                    out = True
+            inst = t["f"].get("inst") or ""
+            g = p.fns.get(inst)
+            if g is not None and g.name.startswith("harper_core::document::") and depth < 6:
+                # only methods that receive &mut self can resize
+                if g["argc"] >= 1 and g.local_ty(1)["k"] == "ref" and g.local_ty(1)["mut"]:
+                    if _resizes_tokens(p, g, memo, depth + 1):
+                        out = True
+    memo[f.name] = out
+    return out
+
+
+def _quotes_last(ck, p, byk):
+    rule = "R-C02-twins"
+    fs = byk.get("Document::parse")
+    if not ck.anchor(rule, "Document::parse", fs):
+        return
+    f = fs[0]
+    ck.saw(f)
+    cfg = Cfg(f)
+    mq = [(bi, t) for bi, t in f.calls() if inst_of(t).endswith("document::{impl}::match_quotes")]
+    if len(mq) != 1:
+        ck.refuted(rule, "anchor-missing:match_quotes", f.span, "expected exactly one match_quotes call in Document::parse, found %d" % len(mq))
+        return
+    qb = mq[0][0]
+    memo = {}
+    later = []
+    n = 0
+    for bi, t in f.calls():
+        if bi == qb or not (cfg.dominates(qb, bi) or cfg.reaches(qb, [bi])):
+            continue
+        g = p.fns.get(t["f"].get("inst") or "")
+        if g is None or not g.name.startswith("harper_core::document::"):
+            if method(t) in RESIZERS and "tokens" in arg_fields(Prov(f), t["args"][0]):
+                later.append((method(t), t["ln"]))
+            continue
+        n += 1
+        ck.saw(g)
+        if g["argc"] >= 1 and g.local_ty(1)["k"] == "ref" and g.local_ty(1)["mut"] and _resizes_tokens(p, g, memo):
+            later.append((last(g.name), t["ln"]))
+    # sanity: the passes before match_quotes are recognised as resizing (the classifier is alive)
+    before = [last(p.fns[t["f"]["inst"]].name) for bi, t in f.calls() if t["f"].get("inst") in p.fns and cfg.dominates(bi, qb) and bi != qb and _resizes_tokens(p, p.fns[t["f"]["inst"]], memo)]
+    ck.floor(rule, "token-resizing passes recognised before match_quotes", len(before), 5)
+    if later:
+        ck.refuted(rule, "Document::parse:after-match_quotes", f.loc(later[0][1]), "%s runs after match_quotes and can remove or insert tokens: every quote after the edit keeps a twin index that no longer points at its partner" % later[0][0])
+    else:
+        ck.proved(rule, "Document::parse:after-match_quotes", f.span, "%d Document passes run after match_quotes; none can change the number or order of tokens (resizing passes before it: %s)" % (n, before))
